@@ -63,6 +63,10 @@ CHECKS = {
          "Generated-configuration search: binaries (any start alignment/length, slices of slices) and decode trees (corpus + generated decoder programs, nested buffers, inner values) x line_bytes 1..64 x addrbase/sizebase {2,8,10,16,36} x display_bytes x verbose x colour x depth are rendered by d/dd/dv/hd (directly through the exported Display interface and, for a sample, through the whole CLI); a parser of the dump locates columns by fixed widths and every hex pair / ascii cell must equal the buffer byte at the printed row address + column, untruncated values must show their bytes exactly once, until-markers and verbose ranges must parse back to the true range and size, the ruler must be right. JSON (tojson, -V, --argjson, literals; ints to 2^200, floats, escapes) must parse to the source value, integers by decimal string.",
          "Trusted: the dump parser/oracle in props/c10, encoding/json as the JSON reader. A cut until-marker is not parsed back; colour output is only stripped, not compared with monochrome. Two display defects are listed known findings (one pinned by 108 goldens).",
          "DESIGN.md 2/C10"),
+ "C17": ("rapid-generated argument vectors against a model of jq's CLI on raw gojq, the real jq 1.6 binary, and solo-run composition",
+         "Generated-configuration search: a semantic configuration (mode flags -n/-s/-R, output flags -r/-j/--raw-output0/-c, named arguments incl. duplicates, program inline / -f / omitted, 0..4 inputs that are JSON, undecodable, missing, a directory or stdin, optional injected argument error of 13 kinds) is spelled as an argv in many ways (short/long/alias/-o key=value/--flag=value, combined short flags, duplicates, any order, flags after positionals, `--`), run through in-process interp.Main with a virtual file system, and compared with (1) a harness model of jq's CLI semantics on raw gojq (stdout byte for byte, exit status by 2 > 4 > 5, 3 for non-compiling programs, 2 for argument errors), (2) the real jq 1.6 binary on the comparable subset, (3) composition: stdout of a multi-input run equals the concatenation of cached solo runs, exit status follows the precedence of the solo classes (measured, not assumed), every solo stderr line appears.",
+         "Trusted: the CLI model in props/c17, jq 1.6 (/usr/bin/jq) where both tools are comparable. Error text is never compared. -i, -h, -v, --argdecode, -C are not generated. Three by-design/fork divergences from jq are listed known findings.",
+         "DESIGN.md 2/C17"),
 }
 
 NOT_YET = {}
